@@ -584,6 +584,62 @@ def r10_sibling_accumulators(ctx):
     ctx.need('R10.sibling-accumulators', 3)
 
 
+def r11_raman_contraction(ctx):
+    """R11: in every numerical step of the Raman solver (the unidirectional solver and both sweeps of the iterative one) the Raman
+    matrix meets the power vector the same way round: (cr @ P)[i] = sum_j cr[i, j] P[j] - written `sum(cr * P, 1)`, `cr @ P`,
+    `dot(cr, P)` or `matmul(cr, P)`.  `P @ cr`, a sum over axis 0 or a transposed matrix is the transposed contraction: power would
+    flow from the low to the high frequencies, and the numerical and the perturbative losses of a loaded span disagree"""
+    repo = ctx.repo
+    rs = repo.cls('RamanSolver', 'gnpy.core.science_utils')
+    n = 0
+
+    def is_cr(e):
+        return isinstance(e, ast.Name) and e.id.endswith('cr')
+
+    def is_crT(e):
+        return (isinstance(e, ast.Attribute) and e.attr == 'T' and is_cr(e.value)) or \
+            (isinstance(e, ast.Call) and ast.unparse(e.func).split('.')[-1] == 'transpose' and len(e.args) == 1 and is_cr(e.args[0]))
+
+    for m in list(rs.methods.values()):
+        for c in ast.walk(m.node):
+            kind = None
+            if isinstance(c, ast.BinOp) and isinstance(c.op, ast.MatMult):
+                if is_cr(c.left) and not is_cr(c.right):
+                    kind = 'row'
+                elif is_cr(c.right) or is_crT(c.left):
+                    kind = 'col'
+            elif isinstance(c, ast.Call) and ast.unparse(c.func).split('.')[-1] in ('dot', 'matmul') and len(c.args) == 2:
+                if is_cr(c.args[0]) and not is_cr(c.args[1]):
+                    kind = 'row'
+                elif is_cr(c.args[1]) or is_crT(c.args[0]):
+                    kind = 'col'
+            elif isinstance(c, ast.Call) and ast.unparse(c.func).split('.')[-1] == 'sum' and c.args and \
+                    isinstance(c.args[0], ast.BinOp) and isinstance(c.args[0].op, ast.Mult) and \
+                    (is_cr(c.args[0].left) or is_cr(c.args[0].right) or is_crT(c.args[0].left) or is_crT(c.args[0].right)):
+                ax = c.args[1] if len(c.args) > 1 else next((k.value for k in c.keywords if k.arg == 'axis'), None)
+                axv = None
+                try:
+                    axv = ast.literal_eval(ax) if ax is not None else None
+                except Exception:
+                    pass
+                tr = is_crT(c.args[0].left) or is_crT(c.args[0].right)
+                if axv in (1, -1):
+                    kind = 'col' if tr else 'row'
+                elif axv == 0:
+                    kind = 'row' if tr else 'col'
+                else:
+                    kind = '?'
+            if kind is None:
+                continue
+            n += 1
+            how = 'the transposed way (sum over its first index)' if kind == 'col' else 'in a way this rule cannot orient'
+            ctx.check('R11.raman-contraction', f'{site(m, c)}', kind == 'row', key(m, f'contraction|{n}'),
+                      f'{m.name}: `{ast.unparse(c)[:80]}` contracts the Raman matrix {how}: every step must use sum_j cr[i, j] P[j]; the '
+                      'transposed product reverses the direction of the Raman transfer (numerical and perturbative results of a loaded '
+                      'span then differ)')
+    ctx.need('R11.raman-contraction', 3)
+
+
 from ..memo import rule_for as _memo_rule
 
 RULES_MEMO = ('Rm.memo', _memo_rule('C05', 'the loss or dispersion of another fibre configuration would be applied'))
@@ -593,4 +649,4 @@ from ..presence import rule_for as _presence_rule
 
 RULES_PRESENCE = ('Rp.presence', _presence_rule('C05', 'a fibre parameter of exactly 0 would be replaced by a default'))
 
-RULES = [('R4.cd', r4_cd), ('R1.once', r1_once), ('R2.budget', r2_budget), ('R3.accumulators', r3_accumulators), RULES_MEMO, RULES_PRESENCE, ('Rk.field-key', rk_field_key), ('Ru.units', ru_units), ('Rs.sorted-abscissa', rs_sorted), ('R5.lumped-once', r5_lumped_once), ('R6.lumped-all', r6_lumped_all), ('R7.channel-order', r7_channel_order), ('Rn.arg-roles', rn_arg_roles), ('R8.ref-point', r8_ref_point), ('R9.raman-orders', r9_raman_orders), ('R10.sibling-accumulators', r10_sibling_accumulators)]
+RULES = [('R4.cd', r4_cd), ('R1.once', r1_once), ('R2.budget', r2_budget), ('R3.accumulators', r3_accumulators), RULES_MEMO, RULES_PRESENCE, ('Rk.field-key', rk_field_key), ('Ru.units', ru_units), ('Rs.sorted-abscissa', rs_sorted), ('R5.lumped-once', r5_lumped_once), ('R6.lumped-all', r6_lumped_all), ('R7.channel-order', r7_channel_order), ('Rn.arg-roles', rn_arg_roles), ('R8.ref-point', r8_ref_point), ('R9.raman-orders', r9_raman_orders), ('R10.sibling-accumulators', r10_sibling_accumulators), ('R11.raman-contraction', r11_raman_contraction)]
